@@ -198,14 +198,15 @@ def run_config(v, h, d, ps, mode, sync, tier, rnd, tag, newdb=False, sector=512)
         i0 = len(exps) * 10
         # the handle opened before the crash has read the header and the schema; every other experiment it has
         # also read (and cached) the table itself
-        warm = dict(sel, id=i0) if len(exps) % 2 == 0 else {"op": "columns", "table": "t", "id": i0}
+        # ... and every third one is cold: opened on the healthy file, nothing read yet when the writer dies
+        warm = dict(sel, id=i0) if len(exps) % 3 == 0 else {"op": "columns", "table": "t", "id": i0} if len(exps) % 3 == 1 else {"op": "noop", "id": i0}
         if newdb:
             # nothing to open before the first transaction: only the crash, then a fresh handle
             batches.append({"db": db, "mode": "keep", "ops": [{"op": "exec", "id": i0 + 1, "args": cmd}]})
         else:
             batches.append({"db": db, "mode": "keep", "ops": [warm, {"op": "exec", "id": i0 + 1, "args": cmd}, dict(sel, id=i0 + 2)]})
         batches2.append({"db": db, "mode": "fresh", "ops": [dict(sel, id=i0 + 3)]})
-        exps.append({"k": k, "torn": torn, "dir": xd, "db": db, "i0": i0, "locked": len(exps) % 3 == 1})
+        exps.append({"k": k, "torn": torn, "dir": xd, "db": db, "i0": i0, "locked": len(exps) % 4 == 1})
     req, out = os.path.join(cdir, "req.ndjson"), os.path.join(cdir, "res.ndjson")
     common.write_ndjson(req, batches)
     rc, txt, _ = common.run([h, "ops", req, out], timeout=3000)
@@ -303,6 +304,104 @@ def run_config(v, h, d, ps, mode, sync, tier, rnd, tag, newdb=False, sector=512)
         oc[(fresh, sq)] = oc.get((fresh, sq), 0) + 1
     return {"config": tag, "syscalls": N, "crash_points": len(exps), "modified_pages": len(modified),
             "outcomes(sqlittle,sqlite)": {"%s/%s" % k: n for k, n in sorted(oc.items())}, "abstract_states": len(verdict["covered"])}
+
+
+def run_parked(v, h, d, tier, rnd):
+    """the writer spills and dies WHILE a read operation of a long-lived handle is under way -- after the operation was
+    called, before it asked for its lock (the reader is parked at a gate there): whatever the operation checked before it
+    holds the lock says nothing about the files it is going to read"""
+    from vlib import procs
+    ensure_shim()
+    ps, mode, sync = 1024, "DELETE", "FULL"
+    cdir = os.path.join(d, "parked")
+    os.makedirs(cdir)
+    base = os.path.join(cdir, "base.db")
+    base_db(base, ps, ROWS)
+    ref = os.path.join(cdir, "ref")
+    os.makedirs(ref)
+    shutil.copy(base, os.path.join(ref, "crash.db"))
+    log = os.path.join(ref, "log.txt")
+    rc, txt, _ = common.run(writer_cmd(os.path.join(ref, "crash.db"), mode, sync, shim_env("crash.db", log)), timeout=120)
+    if rc != 0:
+        raise Infra("reference writer run failed: " + txt[-500:])
+    calls = parse_log(log, ps)
+    N = len(calls)
+    orig_pages = os.path.getsize(base) // ps
+    written = {c["off"] // ps + 1 for c in calls if c["file"] == "d" and c["op"] in ("pwrite", "write")}
+    modified = {p for p in written if p <= orig_pages}
+    dbw = [i + 1 for i, c in enumerate(calls) if c["file"] == "d" and c["op"] in ("pwrite", "write")]
+    if not dbw:
+        raise Infra("the reference transaction wrote no database page")
+    ks = sorted(set([dbw[0] + 1, dbw[len(dbw) // 2] + 1, dbw[-1] + 1, dbw[0]] + ([rnd.choice(dbw) + 1 for _ in range(2 if tier == "quick" else 12)])))
+    lines, info = [], []
+    for k in ks:
+        xd = os.path.join(cdir, "k%d" % k)
+        os.makedirs(xd)
+        db = os.path.join(xd, "crash.db")
+        shutil.copy(base, db)
+        ag = procs.GoAgent(h, "p1")
+        try:
+            if not ag.call(cmd="open", h="h1", db=db).get("ok"):
+                raise Infra("agent could not open the healthy file")
+            if k % 2 == 0:
+                # a warm handle: it has read before
+                r0 = ag.call(cmd="start", h="h1", gate=False, op={"op": "select", "table": "t", "cols": ["id", "v"], "id": 0})
+                if r0.get("state") != "done" or r0["res"].get("err"):
+                    raise Infra("warm-up read failed: %r" % r0)
+            r1 = ag.call(cmd="start", h="h1", gate=True, gate_on=["B"], op={"op": "select", "table": "t", "cols": ["id", "v"], "id": 1})
+            if r1.get("state") != "gate" or r1["ev"][0] != "B":
+                raise Infra("the reader did not stop before its lock: %r" % str(r1)[:200])
+            common.run(writer_cmd(db, mode, sync, shim_env("crash.db", os.path.join(xd, "log.txt"), k, False)), timeout=120)
+            r2 = ag.call(cmd="step", h="h1")
+            n_ = 0
+            while r2.get("state") == "gate" and n_ < 100000:
+                r2 = ag.call(cmd="step", h="h1")
+                n_ += 1
+            if r2.get("state") != "done":
+                raise Infra("the parked read did not finish")
+            got = classify(sqlittle_rows(r2["res"]))
+        finally:
+            ag.close()
+        rdir = os.path.join(xd, "rec")
+        os.makedirs(rdir)
+        for suf in ("", "-journal"):
+            if os.path.exists(db + suf):
+                shutil.copy(db + suf, os.path.join(rdir, "crash.db" + suf))
+        try:
+            con = sqlite3.connect(os.path.join(rdir, "crash.db"))
+            sq = classify(con.execute("SELECT id, v FROM t ORDER BY id").fetchall())
+            con.close()
+        except sqlite3.DatabaseError:
+            sq = "mixed"
+        lines.append({"ev": "reset"})
+        lines += abstract_events(calls, ps, k, False, modified, orig_pages)
+        lines.append({"ev": "crash", "sqlittle": got, "aged": got, "sqlite": sq})
+        info.append((len(lines), k, got, sq))
+        shutil.rmtree(xd, ignore_errors=True)
+    f = os.path.join(cdir, "crash.ndjson")
+    common.write_ndjson(f, lines)
+    cfg = os.path.join(cdir, "TraceJournal_parked.cfg")
+    open(cfg, "w").write("SPECIFICATION TJSpec\nCONSTANTS\n  Modified = {%s}\n  Appended = {}\n  Mode = \"%s\"\n  NoSync = FALSE\n  HdrChunks = 1\n"
+                         "INVARIANT Track\nPOSTCONDITION Post\nCHECK_DEADLOCK FALSE\n" % (", ".join(map(str, sorted(modified))), mode))
+    r = common.tlc("TraceJournal", cfg="TraceJournal_parked.cfg", files={f: "crash.ndjson", cfg: "TraceJournal_parked.cfg"}, workers=1, timeout=900, name="c09-parked", heap="8g")
+    v.add_tlc(r)
+    vp = os.path.join(r.workdir, "verdict.json")
+    if not os.path.exists(vp):
+        raise Infra("TraceJournal did not consume the parked-reader trace:\n" + (r.error or r.out)[-1500:])
+    verdict = json.load(open(vp))
+    if verdict["specbad"]:
+        raise Infra("Journal.tla's SqliteRecovered differs from real SQLite in the parked-reader experiments")
+    for i in verdict["bad"]:
+        n, k, got, sq = next(t for t in info if t[0] == i)
+        c = calls[k - 1] if k <= N else {"op": "end"}
+        v.report("C09:parked-before-lock:sqlittle=%s:sqlite=%s" % (got, sq),
+                 "a read operation was under way (called, not yet locked) when the writer spilled and died before its call %d/%d (%s %s): it read '%s', SQLite recovers '%s'"
+                 % (k, N, c.get("op"), c.get("file", ""), got, sq),
+                 lambda k=k: common.write_replay("C09", "parked-k%d.json" % k, {"page_size": ps, "mode": mode, "sync": sync, "kill_at": k, "reader": "parked before its lock call"}))
+    for _, k, got, sq in info:
+        v.nontrivial(("parked", got, sq))
+    shutil.rmtree(cdir, ignore_errors=True)
+    return {"config": "reader parked between call and lock while the writer dies", "crash_points": len(ks), "bad": len(verdict["bad"])}
 
 
 MAGIC = bytes([0xd9, 0xd5, 0x05, 0xf9, 0x20, 0xa1, 0x63, 0xd7])
@@ -448,6 +547,7 @@ def run(tier):
     for ps, mode, sync, sector in newconfigs:
         summ.append(run_config(v, h, d, ps, mode, sync, tier, rnd, "new-ps%d-%s-%s-s%d" % (ps, mode, sync, sector), newdb=True, sector=sector))
     summ.append(run_leftovers(v, h, d, tier))
+    summ.append(run_parked(v, h, d, tier, rnd))
     # the three prebuilt pairs of the repository
     for name, want_err in (("journal_hot", True), ("journal_persist", False), ("journal_truncate", False)):
         src = os.path.join(common.REPO, "testdata", name + ".sqlite")
